@@ -21,11 +21,15 @@ def _request(rng):
     # distinct names (the check looks a header up by name)
     hdrs = [(b"X-%d" % i + rng.bytes(rng.range(1, 6), TOK), rng.bytes(rng.range(0, 10), TOK + b" ;,=").strip(b" ")) for i in range(nh)]
     hs = b"".join(n + b": " + v + b"\r\n" for n, v in hdrs)
-    kind = rng.choice(["nobody", "body", "body", "bufs", "chunked"])
+    kind = rng.choice(["nobody", "body", "body", "bufs", "chunked", "chunked-emptybody", "body-owncl", "bufs-owncl"])
     lines = []
-    if kind == "chunked":
+    if kind in ("chunked", "chunked-emptybody"):
         hs2 = hs + b"Transfer-Encoding: chunked\r\n"
-        lines.append("cl-send m=%s u=%s hs=%s" % (hx(method), hx(uri), hx(hs2)))
+        first = "cl-send m=%s u=%s hs=%s" % (hx(method), hx(uri), hx(hs2))
+        if kind == "chunked-emptybody":
+            # the application starts its chunked request through a body-carrying overload with an empty body
+            first += " b=%s ovl=%s" % (hx(b""), rng.choice(["body", "bufs"]))
+        lines.append(first)
         chunks = []
         for _ in range(rng.range(0, 3)):
             d = rng.bytes(rng.choice([1, 2, 9, 16, 17, 255, 256]))
@@ -41,6 +45,11 @@ def _request(rng):
         return sends, {"method": method, "uri": uri, "hdrs": hdrs, "chunked": True, "chunks": chunks, "last_ext": last_ext,
                        "trailers": trailers}
     body = b"" if kind == "nobody" else rng.bytes(rng.choice([0, 1, 5, 40, 300]))
+    if kind.endswith("-owncl"):
+        # the application states the (correct) Content-Length itself
+        hdrs = hdrs + [(b"Content-Length", b"%d" % len(body))]
+        hs = hs + b"Content-Length: %d\r\n" % len(body)
+        kind = kind[:-6]
     line = "cl-send m=%s u=%s hs=%s" % (hx(method), hx(uri), hx(hs))
     if kind != "nobody":
         line += " b=%s ovl=%s" % (hx(body), kind)
@@ -225,6 +234,19 @@ def generate(tier, rng, n=None):
         cases.append(Case("cli-rc-%d" % k, lines, {"impl_only": True, "sent": [], "expect_rx": None, "garbage": False,
                                                    "teardown": "reconnect", "close_at": close_at, "inside": inside,
                                                    "tags": ["client", flavour, "reconnect-" + ("inside" if inside else "outside")]}))
+    # teardown while the reconnection timer has EXPIRED but its handler has not run yet (cancel() then cancels nothing
+    # and the handler is invoked with success on a client that no longer exists), or is still pending
+    for k in range(6 if tier == "quick" else 40):
+        flavour = rng.choice(["tcp", "ssl"])
+        lines = ["client cont=%s flavour=%s period=15" % (rng.choice("sv"), flavour), "cl-connected"]
+        if flavour == "ssl":
+            lines.append("hs c0 ok")
+        lines.append("rderr c0 %s" % rng.choice(["eof", "reset"]))
+        lines.append(rng.choice(["sleep 60", "sleep 60", "sleep 1"]))
+        lines.append(rng.choice(["cl-destroy", "cl-destroy", "cl-close"]))
+        lines += ["poll", "wait 40", "state"]
+        cases.append(Case("cli-tm-%d" % k, lines, {"impl_only": True, "sent": [], "expect_rx": None, "garbage": False,
+                                                   "teardown": "timer", "tags": ["client", flavour, "timer-teardown"]}))
     return cases
 
 
@@ -253,6 +275,8 @@ def judge(case, out):
         if st and "pending=1" in st[-1]:
             res["life"] = "work is left in the io_context after the client was closed: %s" % st[-1]
         return res
+    if case.meta["teardown"] == "timer":
+        return res          # only aborts / hangs are judged (above): a late timer completion must not touch a destroyed client
     # --- what the client wrote (C04)
     wires = b"".join(unhx(l.split()[3]) for l in out if l.startswith("io wire c0 ") and len(l.split()) > 3)
     reqs, err = parse_request_stream(wires)
